@@ -63,21 +63,43 @@ def cut_setup(p):
 
 
 def check(run04, run_frame, P, ctx, owners, standalone_types=(), methods=None, run_kind=None):
+    """one unit of work per (owner, mode, handle method), run in forked workers; reports are replayed in order"""
+    from . import par
     stats = {'paths': 0, 'checks': 0, 'states': 0}
+    units = []
     for owner, sa in [(o, False) for o in owners] + [(o, True) for o in standalone_types]:
+        for m, arg in (('push', ('arg', 'x')), ('pop', None), ('clear', None), ('normalize', None), ('make_root', None)):
+            if methods is not None and m not in methods:
+                continue
+            units.append((owner, sa, m, arg))
+
+    def job(i):
+        rs = [par.Recorder() if r else None for r in (run04, run_frame, run_kind)]
+        st = {'paths': 0, 'checks': 0, 'states': 0}
+        _unit(rs[0], rs[1], rs[2], P, ctx, units[i], st)
+        return ([r.events if r else [] for r in rs], st)
+    for evs, st in par.pmap(job, len(units)):
+        for e, r in zip(evs, (run04, run_frame, run_kind)):
+            par.replay(e, r)
+        for k in stats:
+            stats[k] += st[k]
+    return stats
+
+
+def _unit(run04, run_frame, run_kind, P, ctx, unit, stats):
+    owner, sa, m, arg = unit
+    if True:
         fam = owner.split('::')[0]
         seg_t = f'{fam}::path::segment::Segment'
         B = closure.Builder(owner, ctx, seg_t)
         NORM = norm_content(B.rfc)
         base10 = ['p+', 'p-'] if sa else BASE10
         M10 = specmod.marked_dfa(B.rfc, B.prod, base10, ())
-        for m, arg in (('push', ('arg', 'x')), ('pop', None), ('clear', None), ('normalize', None), ('make_root', None)):
-            if methods is not None and m not in methods:
-                continue
+        if True:
             fn = pathmut.PRE + m
             b = P.body(fn)
             if b is None:
-                continue
+                return
             for p in pathmut.run_method(P, fn, arg, standalone=sa):
                 stats['paths'] += 1
                 if p.aborted or not p.splices:
@@ -175,7 +197,6 @@ def check(run04, run_frame, P, ctx, owners, standalone_types=(), methods=None, r
                     for r in (run04, run_frame):
                         if r:
                             r.violation(f'unhandled|{key}', f'{loc} [{guards}]: effect outside the modelled subset ({e}); failing closed')
-    return stats
 
 
 def _show_marked_b(w, base):
